@@ -160,7 +160,7 @@ func redactFindEmailEnd(src string, atIndex int) int {
 }
 
 func redactEmailCheckNumber(s string) bool {
-	if len(s) < 2 {
+	if len(s) < 1 { // a single digit is a number too
 		return false
 	}
 	if first := s[0]; first < '0' || first > '9' {
